@@ -30,9 +30,21 @@ func main() {
 	wl := fs.Bool("writelock", false, "record the discharged obligation ids of this run in obligations.lock.json (reference tree only)")
 	fs.Parse(os.Args[2:])
 	keepQueries = *keep
+	thoroughTier = *tier == "thorough"
 	writeLock = *wl
 	initSolver(*work, 16)
 	switch cmd {
+	case "pkgfiles":
+		w, err := loadWorld(*repo, *contracts)
+		if err != nil {
+			fmt.Fprintln(os.Stderr, err)
+			os.Exit(2)
+		}
+		for _, pat := range fs.Args() {
+			if p := w.Pkgs[pat]; p != nil {
+				fmt.Println(p.GoFiles, p.CompiledGoFiles, p.Errors)
+			}
+		}
 	case "ssa":
 		w, err := loadWorld(*repo, *contracts)
 		if err != nil {
@@ -73,7 +85,7 @@ func main() {
 		var fns []*ssa.Function
 		for f := range w.AllFuncs {
 			for _, pat := range fs.Args() {
-				if strings.Contains(f.String(), pat) && f.Blocks != nil && f.Pkg != nil && strings.HasPrefix(f.Pkg.Pkg.Path(), modPath) && !strings.Contains(f.Pkg.Pkg.Path(), "/cmd/") {
+				if strings.Contains(f.String(), pat) && f.Blocks != nil && f.Pkg != nil && ((strings.HasPrefix(f.Pkg.Pkg.Path(), modPath) && !strings.Contains(f.Pkg.Pkg.Path(), "/cmd/")) || w.Contracts[f] != nil) {
 					fns = append(fns, f)
 				}
 			}
